@@ -291,7 +291,9 @@ impl PartialDSet {
             let dim = self.dim as int;
             let o0 = old(self).op@;
             let o1 = self.op@;
-            assert(o1 == o0.update(kd as int, e).update(ke as int, d));
+            // (holds for either order of the two assignments: kd == ke only if d == e)
+            if kd == ke { lemma_idx_inj(dim, i as int, d as int, i as int, e as int); }
+            assert(o1 =~= o0.update(kd as int, e).update(ke as int, d));
             assert forall|j: int, c: int| 0 <= j <= dim && 1 <= c <= self.size && !(j == i && (c == d || c == e))
                 implies #[trigger] tbl(o1, dim, j, c) == tbl(o0, dim, j, c) by {
                 lemma_idx_bound(self.size as int, dim, j, c);
